@@ -746,7 +746,12 @@ where
                 let seq = self.w.log.lock().unwrap().recs.len() as u64;
                 self.emissions.push(Emission { node: i as u8, field: f as u8, n: nno, peer, one: if *any { None } else { Some(conn) }, queued_at_log_seq: seq });
                 self.flags.notifies += 1;
-                self.w.nodes[i].swarm.behaviour_mut().probe(f).push_cmd(ToSwarm::NotifyHandler { peer_id: peer, handler, event: HIn { n: nno, cmd: cmd.clone() } });
+                // handler-emitted events carry the notification number as their tag so that they can be correlated
+                let cmd = match cmd {
+                    HCmd::Emit(_) => HCmd::Emit(nno),
+                    c => c.clone(),
+                };
+                self.w.nodes[i].swarm.behaviour_mut().probe(f).push_cmd(ToSwarm::NotifyHandler { peer_id: peer, handler, event: HIn { n: nno, cmd } });
             }
             Op::Poll { n } => {
                 let i = *n as usize % nn;
